@@ -52,6 +52,11 @@ Theorem C16_call_sites_tie :
      "tak/alphazero/data.py:ReplayBufferBatch.extra_inputs"; "tak/model/server.py:Server.run_model";
      "tak/model/wrapper.py:ModelWrapper.evaluate"]%string.
 Proof. exact call_sites_tie. Qed.
+(* tie: the causal mask and every padding mask are allocated with dtype=torch.bool (a float mask would be additive in torch) *)
+Theorem C16_mask_dtypes_tie :
+  mask_dtypes = [("xformer/model.py:ar_mask", "torch.bool"); ("tak/model/encoding.py:_encode_batch", "torch.bool");
+                 ("tak/model/server.py:Server.run_model", "torch.bool")]%string.
+Proof. exact mask_dtypes_tie. Qed.
 (* tie: every mask producer of the source yields true = padding at exactly the positions >= the row's real length *)
 Theorem C16_producers_polarity : Forall polarity_ok mask_producers.
 Proof. exact producers_polarity. Qed.
